@@ -285,6 +285,21 @@ class LaplaceTransformer(UnilateralForwardTransformer):
 
         return None
 
+    def clip_heaviside(self, expr, t):
+        """Replace Heaviside(a * t + b) with a > 0 and b > 0 by 1 since
+        the lower limit of the unilateral transform is 0-."""
+
+        def value(e):
+            try:
+                scale, shift = scale_shift(e.args[0], t)
+            except ValueError:
+                return e
+            if scale.is_positive and shift.is_positive:
+                return sym.S.One
+            return e
+
+        return expr.replace(lambda e: isinstance(e, sym.Heaviside), value)
+
     def term(self, expr, t, s, **kwargs):
 
         # Unilateral LT ignores expr for t < 0 so remove Piecewise.
@@ -353,6 +368,7 @@ class LaplaceTransformer(UnilateralForwardTransformer):
             if result is not None:
                 return result * const
             expr = expand_functions(expr, t)
+            expr = self.clip_heaviside(expr, t)
 
         if expr.has(sym.Heaviside(t)):
             return self.integrate_0(expr.replace(sym.Heaviside(t), 1), t, s) * const
